@@ -42,10 +42,15 @@ type Case struct {
 	R     int    `json:"rows"`
 	S     int    `json:"row_bytes"`
 	Last  int    `json:"last_row_bytes,omitempty"` // > 0: the last row has this size instead
+	HeadN int    `json:"head_rows,omitempty"`      // > 0: the first HeadN rows have size HeadS instead
+	HeadS int    `json:"head_row_bytes,omitempty"`
 	Note  string `json:"note,omitempty"`
 }
 
 func (c Case) String() string {
+	if c.HeadN > 0 {
+		return fmt.Sprintf("limit=%d path=%s proto=%s rows=%d (first %d rows of %d bytes, then rows of %d bytes)", c.Limit, c.Path, c.Proto, c.R, c.HeadN, c.HeadS, c.S)
+	}
 	if c.Last > 0 {
 		return fmt.Sprintf("limit=%d path=%s proto=%s rows=%d row_bytes=%d last_row_bytes=%d", c.Limit, c.Path, c.Proto, c.R, c.S, c.Last)
 	}
@@ -76,21 +81,45 @@ func rowPayload(s int) int {
 	return s + 9
 }
 
-// sizeOf row i of a result of r rows (uniform size s, optional different last row)
-func sizeOf(i, r, s, last int) int {
-	if last > 0 && i == r-1 {
-		return last
+// shape of one physical result: R rows of S bytes; optionally the first HeadN rows have
+// HeadS bytes and/or the last row has Last bytes.
+type shape struct{ R, S, Last, HeadN, HeadS int }
+
+func (c Case) shape() shape { return shape{c.R, c.S, c.Last, c.HeadN, c.HeadS} }
+
+func sizeOf(i int, sh shape) int {
+	if i < sh.HeadN {
+		return sh.HeadS
 	}
-	return s
+	if sh.Last > 0 && i == sh.R-1 {
+		return sh.Last
+	}
+	return sh.S
 }
 
 // totalPayload of the first n rows
-func totalPayload(n, r, s, last int) int {
+func totalPayload(n int, sh shape) int {
 	t := 0
 	for i := 0; i < n; i++ {
-		t += rowPayload(sizeOf(i, r, s, last))
+		t += rowPayload(sizeOf(i, sh))
 	}
 	return t
+}
+
+// chunks = rows per 16 MiB chunk as the backend reader cuts them: a chunk ends with the row
+// that takes the buffered payload above the threshold.
+func chunks(sh shape) []int {
+	var out []int
+	n, sum := 0, 0
+	for i := 0; i < sh.R; i++ {
+		n++
+		sum += rowPayload(sizeOf(i, sh))
+		if sum > threshold {
+			out = append(out, n)
+			n, sum = 0, 0
+		}
+	}
+	return append(out, n)
 }
 
 // ---- rig -------------------------------------------------------------------------------
@@ -120,6 +149,8 @@ var (
 	reR    = regexp.MustCompile("(?i)[` ]r`?\\s*=\\s*(\\d+)")
 	reS    = regexp.MustCompile("(?i)[` ]s`?\\s*=\\s*(\\d+)")
 	reB    = regexp.MustCompile("(?i)[` ]b`?\\s*=\\s*(\\d+)")
+	reHN   = regexp.MustCompile("(?i)[` ]hn`?\\s*=\\s*(\\d+)")
+	reHZ   = regexp.MustCompile("(?i)[` ]hz`?\\s*=\\s*(\\d+)")
 	reTag  = regexp.MustCompile("(?i)[` ]tag`?\\s*=\\s*(\\d+)")
 	reFrom = regexp.MustCompile("(?i)\\bfrom\\s+(?:`?\\w+`?\\.)?`?(\\w+)`?")
 )
@@ -145,6 +176,13 @@ func (g *rig) handler(c *fakemysql.ConnInfo, sql string) *fakemysql.Result {
 	if mb := reB.FindStringSubmatch(sql); mb != nil {
 		last, _ = strconv.Atoi(mb[1])
 	}
+	hn, hz := 0, 0
+	if m := reHN.FindStringSubmatch(sql); m != nil {
+		hn, _ = strconv.Atoi(m[1])
+	}
+	if m := reHZ.FindStringSubmatch(sql); m != nil {
+		hz, _ = strconv.Atoi(m[1])
+	}
 	rec := stmtRec{table: strings.ToLower(mf[1]), n: n, size: size}
 	rec.seed = seedOf(tag, rec.table)
 	g.mu.Lock()
@@ -152,7 +190,7 @@ func (g *rig) handler(c *fakemysql.ConnInfo, sql string) *fakemysql.Result {
 		g.stmts[tag] = append(g.stmts[tag], rec)
 	}
 	g.mu.Unlock()
-	return &fakemysql.Result{Cols: []string{"v"}, Gen: &fakemysql.Gen{N: n, Size: size, Seed: rec.seed, LastSize: last}}
+	return &fakemysql.Result{Cols: []string{"v"}, Gen: &fakemysql.Gen{N: n, Size: size, Seed: rec.seed, LastSize: last, HeadN: hn, HeadSize: hz}}
 }
 
 func nsName(limit int) string {
@@ -220,7 +258,7 @@ func (g *rig) calibrate() {
 		g.mu.Lock()
 		tag := g.tag + 1
 		g.mu.Unlock()
-		o := g.runStmtKeep(cl, p, "text", 1, 8, 0, true)
+		o := g.runStmtKeep(cl, p, "text", shape{R: 1, S: 8}, true)
 		cl.Close()
 		g.mu.Lock()
 		recs := g.stmts[tag]
@@ -281,7 +319,7 @@ type outcome struct {
 	multiChunk bool
 }
 
-func sqlFor(path string, r, s, last, tag int, placeholders bool) (string, []int64) {
+func sqlFor(path string, sh shape, tag int, placeholders bool) (string, []int64) {
 	var tbl, extra string
 	switch path {
 	case "unsharded":
@@ -294,17 +332,19 @@ func sqlFor(path string, r, s, last, tag int, placeholders bool) (string, []int6
 		tbl = "tt"
 	}
 	if placeholders {
-		return fmt.Sprintf("SELECT v FROM %s WHERE %sr = ? AND s = ? AND b = ? AND tag = ?", tbl, extra), []int64{int64(r), int64(s), int64(last), int64(tag)}
+		return fmt.Sprintf("SELECT v FROM %s WHERE %sr = ? AND s = ? AND b = ? AND hn = ? AND hz = ? AND tag = ?", tbl, extra),
+			[]int64{int64(sh.R), int64(sh.S), int64(sh.Last), int64(sh.HeadN), int64(sh.HeadS), int64(tag)}
 	}
-	return fmt.Sprintf("SELECT v FROM %s WHERE %sr = %d AND s = %d AND b = %d AND tag = %d", tbl, extra, r, s, last, tag), nil
+	return fmt.Sprintf("SELECT v FROM %s WHERE %sr = %d AND s = %d AND b = %d AND hn = %d AND hz = %d AND tag = %d", tbl, extra, sh.R, sh.S, sh.Last, sh.HeadN, sh.HeadS, tag), nil
 }
 
 // runStmt sends one statement on cl and classifies the answer.
-func (g *rig) runStmt(cl *e2erig.Client, path, proto string, r, s, last int) outcome {
-	return g.runStmtKeep(cl, path, proto, r, s, last, false)
+func (g *rig) runStmt(cl *e2erig.Client, path, proto string, sh shape) outcome {
+	return g.runStmtKeep(cl, path, proto, sh, false)
 }
 
-func (g *rig) runStmtKeep(cl *e2erig.Client, path, proto string, r, s, last int, keep bool) outcome {
+func (g *rig) runStmtKeep(cl *e2erig.Client, path, proto string, sh shape, keep bool) outcome {
+	r := sh.R
 	g.mu.Lock()
 	g.tag++
 	tag := g.tag
@@ -329,7 +369,7 @@ func (g *rig) runStmtKeep(cl *e2erig.Client, path, proto string, r, s, last int,
 	var ri e2erig.ResultInfo
 	var err error
 	if proto == "binary" {
-		q, params := sqlFor(path, r, s, last, tag, true)
+		q, params := sqlFor(path, sh, tag, true)
 		st, perr, e := cl.Prepare(q)
 		switch {
 		case e != nil:
@@ -340,7 +380,7 @@ func (g *rig) runStmtKeep(cl *e2erig.Client, path, proto string, r, s, last int,
 			ri, err = cl.Execute(st.ID, params, onRow)
 		}
 	} else {
-		q, _ := sqlFor(path, r, s, last, tag, false)
+		q, _ := sqlFor(path, sh, tag, false)
 		ri, err = cl.Query(q, onRow)
 	}
 	// what the backends produce for this statement is known a priori: R rows of S bytes per
@@ -355,11 +395,11 @@ func (g *rig) runStmtKeep(cl *e2erig.Client, path, proto string, r, s, last int,
 	tables := physTables[path]
 	o.nStmts = len(tables)
 	o.maxPer = r
-	o.multiChunk = totalPayload(r, r, s, last) > threshold
+	o.multiChunk = totalPayload(r, sh) > threshold
 	for _, t := range tables {
 		seed := seedOf(tag, t)
 		for i := 0; i < r; i++ {
-			o.expected = append(o.expected, fakemysql.RowSum(seed, i, sizeOf(i, r, s, last)))
+			o.expected = append(o.expected, fakemysql.RowSum(seed, i, sizeOf(i, sh)))
 		}
 	}
 	sort.Slice(o.expected, func(i, j int) bool { return o.expected[i] < o.expected[j] })
@@ -405,15 +445,28 @@ func limitClass(limit, r int) string {
 	return "above"
 }
 
-func sizeClass(r, s, last int) string {
-	total := totalPayload(r, r, s, last)
+func sizeClass(sh shape) string {
+	r := sh.R
+	total := totalPayload(r, sh)
 	switch {
 	case total <= threshold:
 		return "single_chunk"
-	case totalPayload(r-1, r, s, last) <= threshold:
+	case totalPayload(r-1, sh) <= threshold:
 		return "threshold_crossed_by_last_row"
 	}
 	return "multi_chunk"
+}
+
+func chunkClass(limit int, sh shape) string {
+	if limit <= 0 {
+		return "no_limit"
+	}
+	for _, n := range chunks(sh) {
+		if n > limit {
+			return "some_chunk_above_limit"
+		}
+	}
+	return "every_chunk_within_limit"
 }
 
 // judge applies the oracle to one statement's outcome. It returns "" or the violation kind.
@@ -475,7 +528,7 @@ func (g *rig) attempt(c Case) (main outcome, fs []finding) {
 		return cl
 	}
 	cl := dial()
-	main = g.runStmt(cl, c.Path, c.Proto, c.R, c.S, c.Last)
+	main = g.runStmt(cl, c.Path, c.Proto, c.shape())
 	cl.Close()
 	if k := judge(c.Limit, main); k != "" {
 		fs = append(fs, finding{"main", k, main, c.R})
@@ -487,7 +540,7 @@ func (g *rig) attempt(c Case) (main outcome, fs []finding) {
 		pr = 0
 	}
 	cl = dial()
-	po := g.runStmt(cl, c.Path, c.Proto, pr, 8, 0)
+	po := g.runStmt(cl, c.Path, c.Proto, shape{R: pr, S: 8})
 	cl.Close()
 	if k := judge(c.Limit, po); k != "" {
 		fs = append(fs, finding{"probe", k, po, pr})
@@ -530,7 +583,7 @@ func runCase(r *ev.Run, g *rig, c Case) (key string) {
 	main, fs := g.attempt(c)
 	if len(fs) > 0 {
 		more := 4
-		if r.Quick() && totalPayload(c.R, c.R, c.S, c.Last) > 8*MiB {
+		if r.Quick() && totalPayload(c.R, c.shape()) > 8*MiB {
 			more = 2
 		}
 		var fresh []finding
@@ -563,7 +616,9 @@ func runCase(r *ev.Run, g *rig, c Case) (key string) {
 				c, f.stage, f.kind, o.class, len(o.got), len(o.expected), o.nStmts, o.maxPer, o.detail),
 			Features: map[string]string{
 				"kind": f.kind, "stage": f.stage, "path": c.Path, "proto": c.Proto,
-				"limit": limitClass(c.Limit, f.rows), "size": sizeClass(c.R, c.S, c.Last), "client": o.class,
+				"limit": limitClass(c.Limit, f.rows), "size": sizeClass(c.shape()), "client": o.class,
+				// does some 16 MiB chunk of the result hold more rows than the limit by itself?
+				"chunks": chunkClass(c.Limit, c.shape()),
 			},
 			Case: c,
 		})
@@ -575,7 +630,7 @@ func runCase(r *ev.Run, g *rig, c Case) (key string) {
 	for _, f := range fs {
 		got += "+" + f.stage + ":" + f.kind
 	}
-	return fmt.Sprintf("%s|%s|%s|%s|stmts=%d|%s", c.Path, c.Proto, limitClass(c.Limit, c.R), sizeClass(c.R, c.S, c.Last), main.nStmts, got)
+	return fmt.Sprintf("%s|%s|%s|%s|stmts=%d|%s", c.Path, c.Proto, limitClass(c.Limit, c.R), sizeClass(c.shape()), main.nStmts, got)
 }
 
 // ---- universe --------------------------------------------------------------------------
@@ -667,6 +722,33 @@ func universe(thorough bool) []Case {
 				Note: "limit x threshold: tiny rows, then one 17 MiB row as row limit+1"})
 		}
 	}
+	// (5) streamed results in which the position of the 16 MiB chunk boundary relative to the
+	// row limit is enumerated: the first chunk holds k rows (k big rows of 16 MiB/k + 64 KiB:
+	// the k-th crosses the threshold), k in {limit-1, limit, limit+1}, followed by m rows of
+	// 8 bytes in the next chunk, m in {0, 1, limit-1, limit, limit+1}; unsharded (the only
+	// streaming path)
+	st := []pp{{"unsharded", "text"}}
+	if thorough {
+		st = []pp{{"unsharded", "text"}, {"unsharded", "binary"}}
+	}
+	for _, limit := range []int{1, 3} {
+		for _, k := range []int{limit - 1, limit, limit + 1} {
+			if k < 1 {
+				continue
+			}
+			seen := map[int]bool{}
+			for _, m := range []int{0, 1, limit - 1, limit, limit + 1} {
+				if m < 0 || seen[m] {
+					continue
+				}
+				seen[m] = true
+				for _, x := range st {
+					cs = append(cs, Case{Limit: limit, Path: x.path, Proto: x.proto, R: k + m, S: 8, HeadN: k, HeadS: 16*MiB/k + 64*1024,
+						Note: fmt.Sprintf("chunk boundary x limit: first chunk %d rows, next chunk %d rows", k, m)})
+				}
+			}
+		}
+	}
 	return cs
 }
 
@@ -721,7 +803,7 @@ func main() {
 		}
 	}
 	g.close()
-	r.Set("rule", "cases = {limit 1,3: R in limit-1..limit+1; unlimited: R in 0,1,4,10001} x S in {1B,1KiB}  +  unlimited: (R,S) with R*payload(S) just below / just above / one row above the 16 MiB-1 streaming threshold and 33 MiB (quick: 17 x 1 MiB)  +  limit 3 with 9 MiB rows; +  limit {1,3} x 'the row crossing 16 MiB is row limit / limit+1 / limit+2' (uniform rows of 16 MiB/k+64 KiB) and 'limit tiny rows then one 17 MiB row' (quick: unsharded and sharded-one-table, text); each x path {unsharded, sharded 1 table, sharded 2 slices, sharded 2 tables on one slice} x protocol {COM_QUERY, COM_STMT_EXECUTE}; each case is followed by a 1-row probe statement on the same path. A case is non-trivial when its observed outcome is not 'one physical statement, one chunk, delivered completely' (i.e. the result was streamed in several chunks, merged from two physical statements, refused by the row limit, or violated the oracle); distinct = distinct (path, protocol, limit class, size class, statements, outcome)")
+	r.Set("rule", "cases = {limit 1,3: R in limit-1..limit+1; unlimited: R in 0,1,4,10001} x S in {1B,1KiB}  +  unlimited: (R,S) with R*payload(S) just below / just above / one row above the 16 MiB-1 streaming threshold and 33 MiB (quick: 17 x 1 MiB)  +  limit 3 with 9 MiB rows; +  limit {1,3} x 'the row crossing 16 MiB is row limit / limit+1 / limit+2' (uniform rows of 16 MiB/k+64 KiB) and 'limit tiny rows then one 17 MiB row' (quick: unsharded and sharded-one-table, text); +  limit {1,3} x 'first 16 MiB chunk holds limit-1 / limit / limit+1 rows' x 'next chunk holds 0 / 1 / limit-1 / limit / limit+1 rows' (unsharded streaming; quick: text);  each x path {unsharded, sharded 1 table, sharded 2 slices, sharded 2 tables on one slice} x protocol {COM_QUERY, COM_STMT_EXECUTE}; each case is followed by a 1-row probe statement on the same path. A case is non-trivial when its observed outcome is not 'one physical statement, one chunk, delivered completely' (i.e. the result was streamed in several chunks, merged from two physical statements, refused by the row limit, or violated the oracle); distinct = distinct (path, protocol, limit class, size class, statements, outcome)")
 	r.Set("outcome_histogram", outcomes)
 	r.Assume("fakemysql produces exactly the rows it is asked for (R rows of S bytes per physical statement, CRC-32 per row recomputed from (tag, table, row index)); framing of the fake and of the client is written from the protocol description")
 	r.Assume("a closed connection or an ERR packet (also after some rows) counts as 'the client receives an error'")
